@@ -1511,6 +1511,48 @@ class _Normalise(ast.NodeTransformer):
         ast.fix_missing_locations(new)
         return new
 
+    # ---- conditions: bool() wrappers dropped, negations pushed inwards (negation normal form)
+    @staticmethod
+    def _strip_bool(t):
+        while isinstance(t, ast.Call) and _dotted(t.func) == "bool" and len(t.args) == 1 and not t.keywords:
+            t = t.args[0]
+        if isinstance(t, ast.BoolOp):
+            t.values = [_Normalise._strip_bool(v) for v in t.values]
+        elif isinstance(t, ast.UnaryOp) and isinstance(t.op, ast.Not):
+            t.operand = _Normalise._strip_bool(t.operand)
+        return t
+
+    @staticmethod
+    def _nnf(t, neg=False):
+        if isinstance(t, ast.UnaryOp) and isinstance(t.op, ast.Not):
+            return _Normalise._nnf(t.operand, not neg)
+        if isinstance(t, ast.BoolOp):
+            op = t.op
+            if neg:
+                op = ast.Or() if isinstance(t.op, ast.And) else ast.And()
+            return ast.copy_location(ast.BoolOp(op=op, values=[_Normalise._nnf(v, neg) for v in t.values]), t)
+        if neg and isinstance(t, ast.Compare) and len(t.ops) == 1 and type(t.ops[0]) in _NEG:
+            return ast.copy_location(ast.Compare(left=t.left, ops=[_NEG[type(t.ops[0])]()], comparators=t.comparators), t)
+        return ast.copy_location(ast.UnaryOp(op=ast.Not(), operand=t), t) if neg else t
+
+    def _cond(self, t):
+        return self._nnf(self._strip_bool(t))
+
+    def visit_If(self, node):
+        self.generic_visit(node)
+        node.test = self._cond(node.test)
+        return node
+
+    def visit_While(self, node):
+        self.generic_visit(node)
+        node.test = self._cond(node.test)
+        return node
+
+    def visit_IfExp(self, node):
+        self.generic_visit(node)
+        node.test = self._cond(node.test)
+        return node
+
     def visit_UnaryOp(self, node):
         self.generic_visit(node)
         if isinstance(node.op, ast.Not):
